@@ -210,6 +210,9 @@ def embedded_pair_st(draw, tier):
             it["rec"]["seq"] = 0
     G.normalise_groups(items)
     acl = {"platform": platform, "name": "T", "type": "extended", "items": items, "prefix": "= ", "group_by": "", "indent": "  "}
+    if pair.get("ncwb"):
+        acl["max_ncwb"] = pair["ncwb"]  # the rare 17-bit class of C03: the ACL is read with the raised limit
+        acl["items"] = [items[0], items[-1]]
     return {"acl": acl, "skip": draw(st.sampled_from(A.SKIPS))}
 
 
